@@ -15,7 +15,7 @@ fn signature_for(bytes: &[u8], m: &WMsg, default: &str) -> String {
     // is later referred to through a (truncated) pointer
     if bytes.len() > 0x4000 {
         if let Err(e) = rwire::audit_pointers(bytes, m) {
-            if e.contains("pointer at") {
+            if e.contains("[truncated-pointer]") {
                 return "ptr-beyond-16k".to_string();
             }
         }
@@ -191,7 +191,7 @@ impl Prop for Bodies {
         400
     }
     fn cases(&self, tier: Tier) -> u64 {
-        tier.pick(30_000, 1_500_000)
+        tier.pick(150_000, 3_000_000)
     }
     fn generate(&self, g: &mut Gen) -> BodyCase {
         let o = MsgOpts {
@@ -363,7 +363,7 @@ impl Prop for Reencode {
         220
     }
     fn cases(&self, tier: Tier) -> u64 {
-        tier.pick(40_000, 2_000_000)
+        tier.pick(150_000, 3_000_000)
     }
     fn generate(&self, g: &mut Gen) -> ReencodeCase {
         let msg = gen_wmsg(g, &MsgOpts::small());
